@@ -18,6 +18,8 @@ type HistCorpus struct {
 	Ops     []Op
 	Final   map[string][]byte
 	Segs    []reclib.SegFile
+	// SessionEnd[i] is the history step at which session i was closed
+	SessionEnd []int
 }
 
 // Corpus is handed to the workers through a gob file.
@@ -233,7 +235,7 @@ func servedOK(want map[int][]reclib.Sample, got []reclib.Sample) string {
 func (e *evaluator) eval(w *reclib.WorkerCtx, idx int) Result {
 	st := e.corpus.States[idx]
 	hc := &e.corpus.Hists[st.Hist]
-	files := materialise(hc.Ops, st)
+	files := materialise(hc.Ops, hc.SessionEnd, st)
 
 	// install the state
 	pdir := filepath.Join(e.recDir, "p")
@@ -266,6 +268,10 @@ func (e *evaluator) eval(w *reclib.WorkerCtx, idx int) Result {
 		worst = "no-defect"
 	}
 	viol := func(probe, failure, cause, what string) {
+		if st.Later {
+			// the interrupted segment is not the newest one: a class of its own
+			cause += "+later-recording"
+		}
 		res.Viols = append(res.Viols, Viol{Key: probe + ":" + failure + ":" + cause,
 			What: fmt.Sprintf("%s; state: %s; files: %s", what, st, strings.Join(shapeStr, " | "))})
 	}
@@ -384,6 +390,70 @@ func (e *evaluator) eval(w *reclib.WorkerCtx, idx int) Result {
 		}
 	}
 
+	// ---- get, a window that starts with a segment and reaches into the file that follows it on
+	// disk (the next segment of the stream, or the first segment recorded after a restart): the
+	// complete parts of the segment the window starts with lie inside the window and must be
+	// served whatever follows; what is served of the following file is a don't-care here
+	for si, sh := range shapes {
+		if sh.header != "ok" || sh.complete == 0 || si+1 >= len(shapes) {
+			continue
+		}
+		nx := shapes[si+1]
+		want := map[int][]reclib.Sample{}
+		wanted(sh.seg, sh.complete, want)
+		// the window ends inside the following file: after its first complete part, or (none
+		// complete) just after its start, and never before the end of this segment's complete parts
+		reach := nx.seg.Start.Sub(sh.seg.Start) + time.Millisecond
+		if nx.header == "ok" && nx.complete > 0 {
+			reach = nx.seg.Start.Sub(sh.seg.Start) + completeEnd(nx.seg, 1)
+		}
+		if d := completeEnd(sh.seg, sh.complete); reach < d {
+			reach = d
+		}
+		cause := sh.defect()
+		if cause == "" {
+			cause = "no-defect"
+		}
+		if d := nx.defect(); d != "" {
+			cause += "-before-" + d
+		}
+		for _, format := range e.tightFormats {
+			w.Probe(fmt.Sprintf("get-reach %s %s %s", format, filepath.Base(sh.seg.Rel), st))
+			res.Reqs++
+			status, body, err = e.pb.Get(sh.seg.Start, reach, format)
+			probe := "get-into-next-file"
+			outKey := "getreach-" + format
+			if err != nil && status == 0 {
+				viol(probe, "no-answer", cause, err.Error())
+				outcomes = append(outcomes, outKey+"=noanswer")
+				continue
+			}
+			outcomes = append(outcomes, fmt.Sprintf("%s=%d", outKey, status))
+			if status != 200 {
+				viol(probe, "error-status", cause,
+					fmt.Sprintf("get [%s +%s] answers %d (%s) although the window begins with the complete parts of %s",
+						sh.seg.Start.Format("15:04:05.000000"), reach, status, strings.TrimSpace(string(body)), filepath.Base(sh.seg.Rel)))
+				continue
+			}
+			var got []reclib.Sample
+			var perr error
+			if format == "fmp4" {
+				_, got, perr = reclib.ParseFMP4Response(body)
+			} else {
+				_, got, perr = reclib.ParseMP4Response(body)
+			}
+			if perr != nil {
+				viol(probe, "invalid-answer", cause, fmt.Sprintf("%s answer to get [%s +%s] (status 200, %d bytes) is not a valid file: %v",
+					outKey, sh.seg.Start.Format("15:04:05.000000"), reach, len(body), perr))
+				continue
+			}
+			if msg := servedOK(want, got); msg != "" {
+				viol(probe, "complete-part-not-served", cause, fmt.Sprintf("%s, get [%s +%s] beginning with %s: %s",
+					outKey, sh.seg.Start.Format("15:04:05.000000"), reach, filepath.Base(sh.seg.Rel), msg))
+			}
+		}
+	}
+
 	// ---- get, wide window from the first segment with complete parts: must serve the
 	// complete parts of the run of consecutive segments up to the first defect
 	first := -1
@@ -402,8 +472,9 @@ func (e *evaluator) eval(w *reclib.WorkerCtx, idx int) Result {
 				cause = sh.defect()
 				break
 			}
-			if i > first && sh.seg.Info.SegNumber != shapes[i-1].seg.Info.SegNumber+1 {
-				break
+			if i > first && (sh.seg.Info.StreamID != shapes[i-1].seg.Info.StreamID ||
+				sh.seg.Info.SegNumber != shapes[i-1].seg.Info.SegNumber+1) {
+				break // another stream (recorded after a restart): not a continuation
 			}
 			wanted(sh.seg, sh.complete, want)
 			if sh.complete < len(sh.seg.Info.Parts) || sh.tail != "none" {
